@@ -256,3 +256,36 @@ PROPS["C18"] = {
         "design_ref": "DESIGN.md §4 C18",
     },
 }
+
+
+def _c05_engine(*a, **k):
+    import c05
+    return c05.engine(*a, **k)
+
+
+PROPS["C05"] = {
+    "level": "translation_validation",
+    "kani": [],
+    "engines": [_c05_engine],
+    "assumptions": COMMON_ASSUME + [
+        "operands of the rewritten expression are an identifier reference or an int32 literal; the rewrite decision of the pass depends only on the node kinds and the literal, which are what the harness quantifies over",
+    ],
+    "outside_claim": [
+        "ConstantFolding (evaluates literals through Context and the interner) and DeadCodeElimination / hoisting",
+        "whole-program optimised-vs-unoptimised trace equality",
+        "`literal ** 2 -> literal * literal` value equality on doubles (powi/powf are over-approximated intrinsics)",
+    ],
+    "trusted_base": ["z3 4.8.12 and cvc5 1.0 QF_FP", "the native probe that reports the rewrite the real pass performed"],
+    "manifest": {
+        "engine": "kani+smt",
+        "text": "Translation validation of the StrengthReduction pass. (1) Kani/CBMC runs the REAL pass on symbolic ASTs and characterises "
+                "its complete rewrite set: for ALL int32 literals, `/` is rewritten only for 2 and only to `* 0.5` (bit-exact constant), "
+                "`**` only for 2 and only when the base is a numeric literal (an identifier base must be kept: `x * x` would evaluate and "
+                "convert x twice - the valueOf/BigInt defect named in the property), every other operator is kept. (2) The operator and "
+                "constant of each rewrite the real pass reports natively are turned into a QF_FP identity over ALL doubles "
+                "(x / 2 == x * 0.5) that z3 and cvc5 must both refute. ConstantFolding and DeadCodeElimination are NOT decided.",
+        "note": "Trusted: Kani/CBMC, z3+cvc5 float theories, the probe. Outside: constant folding, DCE, program-level equivalence.",
+        "technique": "translation validation: bounded model checking of the real pass on symbolic ASTs (Kani) + SMT QF_FP identity per observed rewrite (z3 and cvc5)",
+        "design_ref": "DESIGN.md §4 C05",
+    },
+}
